@@ -165,7 +165,10 @@ def obligations(tier, rng):
             return                      # constant-only predicate: no input domain in dense time; div/sqrt/exp/pow: discrete only
         if dense:
             vs = sorted(variables(f) | set(io))
-            ns = [2 if len(vs) > 2 or quick else 3 for _ in vs]
+            used = variables(f)
+            # three samples of the variable of a one-variable predicate: a sample at the threshold needs a predecessor and a successor
+            # (until round 11 the third sample was never used, because the declared-but-unused variables counted towards the size limit)
+            ns = [(3 if len(used) == 1 and (not quick or cname in ('bare', 'not')) else 2) if v in used else 2 for v in vs]
             out.append(ob('C06', 'ct', '%s/%s/%s/%s/%s' % (mon, sem, ioname, cname, text(p)), f=f, ns=ns, sem=sem, io=io, mode=mode,
                           max_paths=20000, wall=600))
         else:
